@@ -288,6 +288,10 @@ def to_model_ops(comps, executed, with_solve=False):
                 ops.append(["add", e[2]]); idx.append(k)
         elif kind == "solve" and with_solve:
             ops.append(["solve"]); idx.append(k)
+        elif kind == "complete" and with_solve:
+            # completing a circuit = raise-all, then solve
+            ops.append(["raise"]); idx.append(None)
+            ops.append(["solve"]); idx.append(k)
         # solve / complete do not change the modelled tables
     return ops, idx, names
 
